@@ -667,6 +667,15 @@ def _schedule_rewrites(
             # In order to not replace anything, we need to make sure the range is empty.
             before = core.Range(before.start, before.start)
 
+            line_start = source.rfind("\n", 0, max(before.start - getattr(after, "col_offset", 0), 0)) + 1
+            skipped = source[line_start : before.start]
+            if isinstance(after, ast.stmt) and (skipped.strip() or "\n" in skipped):
+                # The following line is indented less than the new statement (or is blank):
+                # insert a complete, indented line in front of it instead of splitting it.
+                indent = " " * getattr(after, "col_offset", 0)
+                after = textwrap.indent(core.unparse(after).rstrip() + "\n", indent)
+                before = core.Range(line_start, line_start)
+
         if after is None:
             after = ""
         return (before, after, transaction)
